@@ -264,6 +264,10 @@ public:
         if (code != control_code_e::auth && code != control_code_e::connack)
             return do_shutdown(asio::error::try_again);
 
+        // the flag bits of CONNACK and AUTH are reserved and must be 0
+        if ((*_buffer_ptr)[0] & 0b00001111)
+            return do_shutdown(client::error::malformed_packet);
+
         auto varlen_ptr = _buffer_ptr->cbegin() + 1;
         auto varlen = decoders::type_parse(
             varlen_ptr, _buffer_ptr->cend(), decoders::basic::varint_
@@ -320,6 +324,11 @@ public:
         if (!rv.has_value())
             return do_shutdown(client::error::malformed_packet);
         const auto& [session_present, reason_code, ca_props] = *rv;
+
+        // bytes left over inside the Remaining Length, or reserved bits of
+        // the Connect Acknowledge Flags set: a malformed CONNACK
+        if (first != last || (session_present & 0b11111110))
+            return do_shutdown(client::error::malformed_packet);
 
         _ctx.ca_props = ca_props;
         _ctx.state.session_present(session_present);
